@@ -1228,6 +1228,115 @@ fn fam_shadow(t: &mut Tracer, rng: &mut Rng, cx: &Ctx) {
     run_block::<u32>(t, rng, cx, &spec, &[], &hays, &ex, true);
 }
 
+/// Counts next to the limits of narrow integer types: one character that occurs about 255 / 65 535 times in the
+/// collection (frequency counters of the code mapper), built in several registration orders, round-tripped,
+/// searched.  The trie is small (the patterns are runs of that character), the totals are not.
+fn fam_bigfreq(t: &mut Tracer, rng: &mut Rng, cx: &Ctx) {
+    let var = if rng.chance(3, 4) { Var::C } else { Var::B };
+    let base: u32 = if var == Var::C { *rng.pick(&[0x61u32, 0x3042, 0x1f600]) } else { 0x61 };
+    // 1 + 2 + ... + n occurrences of the frequent character
+    let n = *rng.pick(&[22usize, 23, 361, 362, 362, 363, 363, 370, 724]);
+    let mut freq: Vec<Pat> = (1..=n).map(|k| vec![base; k]).collect();
+    let (b, c) = (base + 1, base + 2);
+    let mut rare: Vec<Pat> = vec![vec![b], vec![b, b], vec![c], vec![c, c], vec![c, base]];
+    // (a character that occurs exactly once, half of the time)
+    rare.truncate(if rng.chance(1, 2) { 1 } else { rng.range(2, 5) });
+    let kind = if cx.prop == "C14" { *rng.pick(&[Kind::Std, Kind::LL]) } else { *rng.pick(&[Kind::Std, Kind::LL, Kind::LF]) };
+    let entry = "with_values";
+    let mk = |pats: Vec<Pat>| BuildSpec { var, kind, entry, via_builder: true, nfb: 16, pats };
+    // values travel with their patterns
+    let all: Vec<Pat> = rare.iter().cloned().chain(freq.iter().cloned()).collect();
+    let val_of = |p: &Pat| -> u32 { all.iter().position(|q| q == p).unwrap() as u32 + 1 };
+    let order1: Vec<Pat> = all.clone(); // rare first
+    rng.shuffle(&mut freq);
+    let order2: Vec<Pat> = freq.iter().cloned().chain(rare.iter().cloned()).collect(); // frequent first
+    let mut order3 = all.clone();
+    rng.shuffle(&mut order3);
+    let hays: Vec<Rc<Vec<u8>>> = (0..2)
+        .map(|_| {
+            let mut labels: Vec<u32> = vec![];
+            for _ in 0..rng.range(3, 12) {
+                labels.push(*rng.pick(&[base, base, b, c, base + 3]));
+            }
+            Rc::new(pat_bytes(var, &labels))
+        })
+        .collect();
+    let mut first: Option<(u32, Pma<u32>)> = None;
+    for (k, ord) in [order1, order2, order3].into_iter().enumerate() {
+        let vals: Vec<u32> = ord.iter().map(&val_of).collect();
+        let spec = mk(ord);
+        let (h, pma) = ev_build::<u32>(t, &spec, &vals);
+        let Some(pma) = pma else { continue };
+        for hay in &hays {
+            for m in kind.methods() {
+                ev_search(t, h, &pma, m, "slice", hay, 0);
+            }
+        }
+        if k == 0 || matches!(cx.prop, "C09" | "C07") {
+            let (h2, p2) = ev_roundtrip(t, h, &pma, &[1, 2]);
+            for m in kind.methods() {
+                ev_search(t, h2, &p2, m, "slice", &hays[0], 0);
+            }
+        }
+        match &first {
+            None => first = Some((h, pma)),
+            Some((h1, a)) => ev_same(t, *h1, a, h, &pma, "permutation"),
+        }
+    }
+}
+
+/// Alphabets next to the limits of narrow integer types: 255 / 256 / 257 and 65 535 / 65 536 / 65 537 distinct
+/// pattern characters (code mapper tables, codes stored in narrow fields, sentinel values).  No table dump
+/// (it is quadratic in the alphabet); construction, searches, round trip, searches on the restored automaton.
+fn fam_bigalpha(t: &mut Tracer, rng: &mut Rng, cx: &Ctx) {
+    let var = Var::C;
+    let n: usize = if rng.chance(1, 2) { *rng.pick(&[255usize, 256, 256, 256, 257]) } else { *rng.pick(&[65_535usize, 65_536, 65_536, 65_536, 65_537]) };
+    let base: u32 = *rng.pick(&[0x4e00u32, 0x100, 0x10000]);
+    let ch = |i: usize| -> u32 {
+        // skip the surrogate range
+        let c = base + i as u32;
+        if (0xd800..0xe000).contains(&c) || c >= 0xd800 && base < 0xd800 { c + 0x800 } else { c }
+    };
+    let mut pats: Vec<Pat> = (0..n).map(|i| vec![ch(i)]).collect();
+    // a few longer patterns; their characters become more frequent than the others
+    for _ in 0..rng.range(0, 3) {
+        let a = ch(rng.below(n));
+        let b = ch(rng.below(n));
+        pats.push(vec![a, b]);
+    }
+    if rng.chance(1, 2) {
+        rng.shuffle(&mut pats);
+    }
+    let kind = *rng.pick(&kinds_for(cx.prop));
+    let spec = BuildSpec { var, kind, entry: "new", via_builder: true, nfb: 16, pats };
+    let (h, pma) = ev_build::<u32>(t, &spec, &[]);
+    let Some(pma) = pma else { return };
+    let hays: Vec<Rc<Vec<u8>>> = (0..3)
+        .map(|_| {
+            let mut labels: Vec<u32> = vec![ch(0), ch(n - 1), ch(n - 2), ch(n), ch(1)];
+            for _ in 0..rng.range(2, 8) {
+                labels.push(ch(rng.below(n + 2)));
+            }
+            rng.shuffle(&mut labels);
+            Rc::new(pat_bytes(var, &labels))
+        })
+        .collect();
+    for hay in &hays {
+        for m in kind.methods() {
+            ev_search(t, h, &pma, m, "slice", hay, 0);
+            if *m != "lm" {
+                ev_search(t, h, &pma, m, "iter", hay, 0);
+            }
+        }
+    }
+    let (h2, p2) = ev_roundtrip(t, h, &pma, &[7]);
+    for hay in &hays {
+        for m in kind.methods() {
+            ev_search(t, h2, &p2, m, "slice", hay, 0);
+        }
+    }
+}
+
 /// C06: values are the input positions, for collections so large that the positions exceed the
 /// range of u8 (quick) / u16 (thorough): a truncated or wrapped index becomes visible
 fn fam_bigindex(t: &mut Tracer, rng: &mut Rng, cx: &Ctx) {
@@ -1448,13 +1557,12 @@ pub fn family_of(prop: &str, i: u64) -> &'static str {
             11 => "longpat",
             _ => "values",
         },
-        "C09" => {
-            if i % 16 == 15 {
-                "dict"
-            } else {
-                "values"
-            }
-        }
+        "C09" => match i % 16 {
+            15 => "dict",
+            7 | 11 => "bigalpha",
+            3 => "bigfreq",
+            _ => "values",
+        },
         "C07" => match i % 12 {
             11 => "dict",
             10 => "wide",
@@ -1466,6 +1574,8 @@ pub fn family_of(prop: &str, i: u64) -> &'static str {
         "C10" => match i % 20 {
             19 => "dict",
             7 | 13 => "nfb", // valid collections under many builder settings
+            11 | 5 => "bigfreq",
+            17 => "bigalpha",
             3 => "wide",
             _ => "invalid",
         },
@@ -1485,13 +1595,11 @@ pub fn family_of(prop: &str, i: u64) -> &'static str {
                 }
             }
         },
-        "C14" => {
-            if i % 10 == 9 {
-                "threads"
-            } else {
-                "perm"
-            }
-        }
+        "C14" => match i % 10 {
+            9 => "threads",
+            4 | 7 => "bigfreq",
+            _ => "perm",
+        },
         _ => "small",
     }
 }
@@ -1513,6 +1621,8 @@ pub fn run_scenario(t: &mut Tracer, prop: &str, thorough: bool, seed: u64, i: u6
         "dict" => fam_dict(t, &mut rng, &cx),
         "nfb" => fam_nfb(t, &mut rng, &cx),
         "invalid" => fam_invalid(t, &mut rng, &cx),
+        "bigfreq" => fam_bigfreq(t, &mut rng, &cx),
+        "bigalpha" => fam_bigalpha(t, &mut rng, &cx),
         "perm" => fam_perm(t, &mut rng, &cx),
         "threads" => fam_threads(t, &mut rng, &cx),
         "lazy" => fam_lazy(t, &mut rng, &cx),
